@@ -95,4 +95,18 @@ def cases(ctx):
                     "src": f"*={org:#08x}\nzz_rom:\nnop\n@=0x7e0000\nbra zz_rom\n",
                     "spec": {"t": "branch", "high": rom == "high", "p": 0x7E0000, "t_addr": org, "op": 0x80, "skip": 1,
                              "reject": True}})
+    # the run address is RAM because a *= (not a @=) put it there, the target is ROM within reach of the stale offset
+    for rom in ("low", "high"):
+        bank = 0x01 if rom == "low" else 0x41
+        org = (bank << 16) | 0x8000
+        for ram in (0x7E2000, 0x7E0000, 0x7FFFF0):
+            for mn, op in br:
+                out.append({"kind": "branch:source-ram-by-org", "rom": rom,
+                            "src": f"*={org:#08x}\nzz_t:\nnop\nnop\nnop\n*={ram:#08x}\n{mn} zz_t\n",
+                            "spec": {"t": "branch", "high": rom == "high", "p": ram, "t_addr": org, "op": op, "skip": 0,
+                                     "reject": True}})
+            out.append({"kind": "branch:source-ram-by-org-fwd", "rom": rom,
+                        "src": f"*={org:#08x}\nnop\n*={ram:#08x}\nbra zz_f\n*={org + 3:#08x}\nzz_f:\nnop\n",
+                        "spec": {"t": "branch", "high": rom == "high", "p": ram, "t_addr": org + 3, "op": 0x80, "skip": 0,
+                                 "reject": True}})
     return out
